@@ -50,13 +50,14 @@ type adapter struct {
 	r1k, poork             *ecdsa.PrivateKey
 	r1, r2, poor, contract common.Address
 	y                      common.Address // an address nothing committed ever pays before "cfwd"
+	many                   []common.Address
 	side                   int
 	used                   map[string]bool
 }
 
 // the order in which the miner tries the not yet offered transactions on a throwaway block before the real one
 var canon = []string{"fund", "create", "vote", "spend", "votep", "call", "revert", "boxok", "boxbad", "boxfull", "cfwd", "poor", "badsig",
-	"overspend", "votebad", "modsig"}
+	"overspend", "votebad", "boxmany", "modsig", "big"}
 
 func detKey(tag byte) *ecdsa.PrivateKey {
 	b := make([]byte, 32)
@@ -154,12 +155,34 @@ func (a *adapter) init() {
 		}
 		a.txs[kind] = stx
 	}
+	// big: a cheap transfer whose gas LIMIT is the whole block but for 20000: it fits only while nothing was packaged before it
+	a.mk("big", f, fk, &a.r2, 1, params.OrdinaryTx, nil, blockGasLimit-20000)
+	// boxmany: a box of 12 transfers to 12 accounts nobody else touches (a block with many change logs on many accounts)
+	{
+		var subs []*types.Transaction
+		for i := 0; i < 12; i++ {
+			to := crypto.PubkeyToAddress(detKey(byte(40 + i)).PublicKey)
+			a.many = append(a.many, to)
+			subs = append(subs, sub(to, f, fk, int64(100+i), 30000, fmt.Sprintf("bm%d", i)))
+		}
+		data, err := types.MarshalBoxData(subs)
+		if err != nil {
+			panic(err)
+		}
+		tx := types.NoReceiverTransaction(f, big.NewInt(0), 600000, gasPrice, data, params.BoxTx, node.ChainID, uint64(node.GenesisTime)+1000, "", "boxmany")
+		stx, err := types.DefaultSigner{}.SignTx(tx, fk)
+		if err != nil {
+			panic(err)
+		}
+		a.txs["boxmany"] = stx
+	}
 	// the first sub-transaction of the two boxes that are never packaged pays y: nothing of it may survive the box
 	mkbox("boxok", sub(a.r2, f, fk, 5, 30000, "bo1"), sub(a.r2, f, fk, 6, 30000, "bo2"))
 	mkbox("boxfull", sub(a.y, f, fk, 7, 30000, "bf1"), sub(a.r2, f, fk, 8, blockGasLimit+500000, "bf2"))
 	mkbox("boxbad", sub(a.y, f, fk, 9, 30000, "bb1"), sub(a.r2, a.poor, a.poork, 1, 30000, "bb2"))
 	a.addrs = append([]common.Address{f, a.r1, a.r2, a.poor, a.y, a.contract, crypto.CreateContractAddress(f, a.txs["revert"].Hash()),
 		crypto.CreateContractAddress(f, a.txs["cfwd"].Hash())}, a.w.Miners...)
+	a.addrs = append(a.addrs, a.many...)
 }
 
 func (a *adapter) destroy() {
